@@ -128,3 +128,55 @@ def registry_private(prog):
     out.append(ob('registry#no_reflection', 'no setattr/delattr/exec/eval outside the audited sites (%s)' % sorted(known_ok),
                   'proved' if not left else 'undecided', '; '.join(left) or 'none'))
     return out
+
+
+MUTATING_METHODS = {'append', 'insert', 'remove', 'extend', 'pop', 'sort', 'clear', 'add', 'setdefault', 'update',
+                    'discard', 'reverse', 'popitem'}
+
+
+def rules_stateless(prog):
+    """C19 (repeatable): no rule function of odml/validation.py, and nothing it calls inside that module,
+    keeps state between calls: no `global`/`nonlocal`, no mutable default argument that is mutated or handed on,
+    no mutation of a module-level name."""
+    out = []
+    mod = prog.modules['odml/validation.py']
+    module_names = set(getattr(mod, 'constants', {}) or {}) | set(getattr(mod, 'aliases', {}) or {})
+    for name, fi in sorted(mod.functions.items()):
+        problems = []
+        node = fi.node
+        a = node.args
+        params = [x.arg for x in a.args + a.kwonlyargs]
+        defaults = dict(zip([x.arg for x in a.args][len(a.args) - len(a.defaults):], a.defaults))
+        defaults.update({k.arg: d for k, d in zip(a.kwonlyargs, a.kw_defaults) if d is not None})
+        mutable = {p for p, d in defaults.items()
+                   if isinstance(d, (ast.Dict, ast.List, ast.Set, ast.ListComp, ast.DictComp, ast.SetComp)) or
+                   (isinstance(d, ast.Call) and isinstance(d.func, ast.Name) and
+                    d.func.id in ('dict', 'list', 'set', 'defaultdict', 'OrderedDict'))}
+        local_store = {n.id for n in ast.walk(node) if isinstance(n, ast.Name) and isinstance(n.ctx, ast.Store)}
+        for n in ast.walk(node):
+            if isinstance(n, (ast.Global, ast.Nonlocal)):
+                problems.append('%s %s' % (type(n).__name__.lower(), ', '.join(n.names)))
+            tgt = None
+            how = None
+            if isinstance(n, ast.Subscript) and isinstance(n.ctx, (ast.Store, ast.Del)) and isinstance(n.value, ast.Name):
+                tgt, how = n.value.id, 'item assignment'
+            elif isinstance(n, ast.Call) and isinstance(n.func, ast.Attribute) and isinstance(n.func.value, ast.Name) \
+                    and n.func.attr in MUTATING_METHODS:
+                tgt, how = n.func.value.id, '.%s()' % n.func.attr
+            elif isinstance(n, ast.AugAssign) and isinstance(n.target, ast.Name):
+                tgt, how = n.target.id, 'augmented assignment'
+            if tgt is not None:
+                if tgt in mutable:
+                    problems.append('mutable default argument %s is mutated (%s, line %d)' % (tgt, how, n.lineno))
+                elif tgt not in params and tgt not in local_store:
+                    problems.append('module-level name %s is mutated (%s, line %d)' % (tgt, how, n.lineno))
+            if isinstance(n, ast.Call):
+                for arg in list(n.args) + [k.value for k in n.keywords]:
+                    if isinstance(arg, ast.Name) and arg.id in mutable and arg.id not in local_store:
+                        problems.append('mutable default argument %s is handed to %s (line %d)'
+                                        % (arg.id, ast.unparse(n.func)[:40], n.lineno))
+        out.append(ob('odml/validation.py::%s#stateless' % name,
+                      'keeps no state between calls (no global/nonlocal, no mutated or escaping mutable default, '
+                      'no mutated module-level name)', 'proved' if not problems else 'refuted',
+                      '; '.join(problems) or 'no state-carrying construct'))
+    return out
